@@ -502,6 +502,16 @@ func (txmp *TxMempool) addNewTransaction(wtx *WrappedTx, checkTxRes *abci.Respon
 		}
 	}
 
+	// The cache that filters repeated transactions is bounded independently of
+	// the pool (and can be disabled), so it may have forgotten a transaction
+	// that is still in the pool: never add it twice.
+	if elt, ok := txmp.txByKey[wtx.tx.Key()]; ok {
+		for id := range wtx.peers {
+			elt.Value.(*WrappedTx).SetPeer(id)
+		}
+		return
+	}
+
 	// At this point the application has ruled the transaction valid, but the
 	// mempool might be full. If so, find the lowest-priority items with lower
 	// priority than the application assigned to this new one, and evict as many
